@@ -23,6 +23,7 @@ import (
 	"github.com/klauspost/compress/zstd"
 
 	"verif/dsu"
+	"verif/fakes"
 	"verif/harness"
 )
 
@@ -77,9 +78,12 @@ func run(c *harness.Ctx, i int) {
 	case i%10 == 8:
 		indexes(c)
 	default:
-		if i%20 == 9 {
+		switch i % 40 {
+		case 9:
 			sshSession(c)
-		} else {
+		case 19:
+			hasSemantics(c)
+		default:
 			sshBehindHTTP(c)
 		}
 	}
@@ -746,6 +750,115 @@ func sshSession(c *harness.Ctx) {
 	c.Count("ssh_sessions", 1)
 	c.NonTrivial("ssh-session|u%v", uncompressed)
 	c.Sample(map[string]interface{}{"leg": "ssh-session", "requests": len(seq)})
+}
+
+// (e) HasChunk over the other remote transports: absent is (false, nil) - the router and the cache rely on that -, a
+// store that cannot answer is an error, never "not there".
+func hasSemantics(c *harness.Ctx) {
+	rng := c.Rng
+	dir := c.CaseDir()
+	store := filepath.Join(dir, "store")
+	os.MkdirAll(store, 0755)
+	ls, _ := desync.NewLocalStore(store, desync.StoreOptions{})
+	b := dsu.MakeBlob(rng, "random", 100+rng.Intn(3000), dsu.Sizes{Min: 64, Avg: 128, Max: 256})
+	id := dsu.Sum(b)
+	dsu.Must(ls.StoreChunk(desync.NewChunk(b)))
+	var absent desync.ChunkID
+	rng.Read(absent[:])
+	kind := []string{"ssh", "s3", "sftp"}[rng.Intn(3)]
+	c.Info("has-semantics transport=%s", kind)
+	c.LogInfo()
+	check := func(what string, s desync.Store, wantPresent, wantAbsent string) bool {
+		for _, q := range []struct {
+			id   desync.ChunkID
+			want string
+		}{{id, wantPresent}, {absent, wantAbsent}} {
+			has, err := s.HasChunk(q.id)
+			got := "false"
+			switch {
+			case err != nil:
+				got = "error"
+			case has:
+				got = "true"
+			}
+			if got != q.want {
+				cls := "has-wrong"
+				if q.want == "false" && got == "error" {
+					cls = "missing-reported-as-error:has"
+				} else if q.want == "error" {
+					cls = "failure-reported-as-missing:has"
+				}
+				c.Violation(cls+":"+kind, "%s: HasChunk returned (%v, %v), expected %s", what, has, err, q.want)
+				return false
+			}
+		}
+		return true
+	}
+	switch kind {
+	case "ssh":
+		s, err := sshStore(store, 1)
+		if err != nil {
+			c.Inconclusive("ssh shim: %v", err)
+			return
+		}
+		defer s.Close()
+		if !check("ssh:// store", s, "true", "false") {
+			return
+		}
+		// and through a router the way the commands build it: the chunk is in the second member only
+		os.MkdirAll(filepath.Join(dir, "empty"), 0755)
+		empty, err := sshStore(filepath.Join(dir, "empty"), 1)
+		if err == nil {
+			defer empty.Close()
+			r := desync.NewStoreRouter(empty, ls)
+			if has, err := r.HasChunk(id); err != nil || !has {
+				c.Violation("missing-reported-as-error:has:ssh-router", "router(ssh store lacking the chunk, local store holding it).HasChunk returned (%v, %v)", has, err)
+				return
+			}
+		}
+	case "s3":
+		f := fakes.NewS3("bucket")
+		defer f.Close()
+		raw, _ := os.ReadFile(filepath.Join(store, id.String()[:4], id.String()+".cacnk"))
+		f.Put("pfx/"+id.String()[:4]+"/"+id.String()+".cacnk", raw)
+		s, err := desync.NewS3Store(f.URL("pfx"), fakes.Creds(), fakes.Region, desync.StoreOptions{ErrorRetry: 0}, fakes.Lookup)
+		dsu.Must(err)
+		if !check("healthy S3 store", s, "true", "false") {
+			return
+		}
+		f.FailHead = 403 // (minio-go retries 5xx by itself for a long time)
+		if !check(fmt.Sprintf("S3 store answering HEAD with %d", f.FailHead), s, "error", "error") {
+			return
+		}
+	case "sftp":
+		os.Setenv("CASYNC_SSH_PATH", shim)
+		os.Setenv("SHIM_SFTP_FAULT", "none@0")
+		u, _ := url.Parse("sftp://localhost" + store)
+		s, err := desync.NewSFTPStore(u, desync.StoreOptions{N: 1})
+		if err != nil {
+			c.Inconclusive("sftp shim: %v", err)
+			return
+		}
+		ok := check("healthy SFTP store", s, "true", "false")
+		s.Close()
+		if !ok {
+			return
+		}
+		os.Setenv("SHIM_SFTP_FAULT", "stat@2") // the first stat is the one of the store directory when connecting
+		defer os.Unsetenv("SHIM_SFTP_FAULT")
+		s2, err := desync.NewSFTPStore(u, desync.StoreOptions{N: 1})
+		if err != nil {
+			c.Inconclusive("sftp shim: %v", err)
+			return
+		}
+		defer s2.Close()
+		if !check("SFTP store whose server fails every stat", s2, "error", "error") {
+			return
+		}
+	}
+	c.Count("has_semantics_cases", 1)
+	c.NonTrivial("has-semantics|%s", kind)
+	c.Sample(map[string]interface{}{"leg": "has-semantics", "transport": kind})
 }
 
 // (d) compressing chunk handler in front of an ssh upstream with one session, concurrent clients
